@@ -113,6 +113,11 @@ def gen_tables():
     return {"Tables_C20.v": "\n".join(L) + "\n"}
 
 
+# the base-system directories of the statement, pinned (same list as Spec_C20.base_system_dirs)
+BASE_SYSTEM_DIRS = ["usr", "usr/lib", "usr/lib64", "usr/lib32", "usr/bin", "usr/sbin", "bin", "sbin", "lib",
+                    "lib32", "lib64", "etc", "var", "home", "root"]
+
+
 # --------------------------------------------------------------------------- case generation
 FILES = ["f", "g", "x y", "été", "q#", "a.so", "zz"]
 SUBDIRS = ["d", "lib-x", "lib.d", "share", "e e", "z"]
@@ -261,6 +266,12 @@ def gen_case(rng, n):
     for b in BASE_DIRS[:12] + ["usr/lib", "lib"]:
         if b in t and rng.random() < 0.45:
             add(old, b)
+    if "etc" in t and t["etc"][0] == "d" and rng.random() < 0.35:
+        # the package owns everything in etc (incl. the ld.so.conf the ldconfig trigger would create)
+        t.setdefault("etc/ld.so.conf", ("f", "o0"))
+        for k in sorted(t):
+            if k == "etc" or k.startswith("etc/"):
+                add(old, k)
     rng.shuffle(old)
     new = None
     if mode == "replace":
@@ -285,8 +296,9 @@ def gen_case(rng, n):
                 add(new, rng.choice(dirs) + "/" + rng.choice(["n1", "n2", "nd/n3"]))
         rng.shuffle(new)
     off = rng.choice(["o", "o", "o", "o/p", "s", ""])
-    return {"n": n, "mode": mode, "tree": t, "old": old, "new": new, "off": off,
-            "slash": rng.random() < 0.3, "ext": rng.random() < 0.8, "post": rng.random() < 0.1}
+    flip = [p for p in old if rng.random() < 0.06]      # recorded with the wrong type (the live type decides)
+    return {"n": n, "mode": mode, "tree": t, "old": old, "new": new, "off": off, "flip": flip,
+            "slash": rng.random() < 0.3, "ext": rng.random() < 0.8, "post": rng.random() < 0.05}
 
 
 # --------------------------------------------------------------------------- driving the implementation
@@ -333,7 +345,12 @@ def make_contents(case, which, live_root):
         loc = "/" + p
         fp = os.path.join(live_root, p)
         kw = {"strict": False, "uid": 0, "gid": 0, "mtime": 1_200_000_000 + k}
-        if os.path.islink(fp) and which == "old":
+        if which == "old" and p in case.get("flip", ()):
+            if os.path.isdir(fp) and not os.path.islink(fp):
+                objs.append(fs.fsFile(loc, mode=0o644, data=data_source(b"x"), **kw))
+            else:
+                objs.append(fs.fsDir(loc, mode=0o755, **kw))
+        elif os.path.islink(fp) and which == "old":
             objs.append(fs.fsSymlink(loc, os.readlink(fp), **kw))
         elif os.path.isdir(fp) or (not os.path.lexists(fp) and p.endswith(("gone", "nd"))):
             objs.append(fs.fsDir(loc, mode=0o755, **kw))
@@ -360,17 +377,26 @@ def canon_data(d: bytes) -> str:
     return "h" + hashlib.sha1(d).hexdigest()[:8]
 
 
+def show_node(n) -> str:
+    k = {"dir": "d", "file": "f", "sym": "l", "fifo": "p"}.get(n[0], "c")
+    if k == "f":
+        k += canon_data(n[1])
+    elif k == "l":
+        k += n[1]
+    return k
+
+
 def show_snapshot(snap) -> str:
-    out = []
-    for p in sorted(snap):
-        n = snap[p]
-        k = {"dir": "d", "file": "f", "sym": "l", "fifo": "p"}.get(n[0], "c")
-        if k == "f":
-            k += canon_data(n[1])
-        elif k == "l":
-            k += n[1]
-        out.append("/".join(p) + "=" + k)
-    return ";".join(out)
+    return ";".join("/".join(p) + "=" + show_node(snap[p]) for p in sorted(snap))
+
+
+def show_diff(before, after) -> str:
+    """GONE @ EXTRA: paths of `before` missing from `after` (sorted), then every binding of `after`
+    that `before` does not have identically (type, data/target); see Model_C20.show_result"""
+    gone = ";".join("/".join(p) for p in sorted(before) if p not in after)
+    extra = ";".join("/".join(p) + "=" + show_node(after[p]) for p in sorted(after)
+                     if p not in before or show_node(before[p]) != show_node(after[p]))
+    return gone + "@" + extra
 
 
 def show_trace(trace, cb) -> str:
@@ -383,7 +409,8 @@ def show_trace(trace, cb) -> str:
         lit = os.path.relpath(os.path.normpath(c.args[0]), rb)
         k = "u" if c.kind == "unlink" else "r"
         if c.ok:
-            out.append(k + lit + ">" + ("/".join(c.cpaths[0]) if c.cpaths[0] is not None else "<outside>"))
+            cp = "/".join(c.cpaths[0]) if c.cpaths[0] is not None else "<outside>"
+            out.append(k + lit + ">" + ("" if cp == lit else cp))
         else:
             out.append(k + lit + "!")
     return ";".join(out)
@@ -402,7 +429,6 @@ def run_case(case, base):
     """drive the real engine; returns a dict with input string, result string and oracle facts
     (or {"skip": reason})"""
     from pkgcore.merge.engine import MergeEngine
-    from pkgcore.merge.triggers import BaseSystemUnmergeProtection
     from pkgcore.operations import observer as om
 
     cb = os.path.join(base, "c%d" % case["n"])
@@ -443,7 +469,7 @@ def run_case(case, base):
         return {"loc": p, "kind": lstat_kind(fp), "canon": c}
     f_old = [facts(p) for p in case["old"]]
     f_new = [facts(p) for p in case["new"]] if case["new"] is not None else None
-    f_prot = [facts(x.lstrip("/")) for x in BaseSystemUnmergeProtection._preserve_sequence]
+    f_prot = [facts(x) for x in BASE_SYSTEM_DIRS]
     run = fsx.record(lambda: e.unmerge(), cb)
     after = fsx.snapshot(cb)
     gone_after = {p: not os.path.lexists(os.path.join(O, p)) for p in case["old"]}
@@ -456,12 +482,13 @@ def run_case(case, base):
         post_exc = repr(x)
     inp = "@".join([offrel, show_snapshot(before), ";".join(case["old"]),
                     "-" if case["new"] is None else "+" + ";".join(case["new"])])
-    res = "@".join([show_trace(run.trace, cb), show_snapshot(after), "1" if run.exc is not None else "0"])
+    res = "@".join([show_trace(run.trace, cb), show_diff(before, after), "1" if run.exc is not None else "0"])
     shutil.rmtree(cb, ignore_errors=True)
     shutil.rmtree(tmp, ignore_errors=True)
     return {"input": inp, "result": res, "before": before, "after": after, "old": f_old, "new": f_new,
             "prot": f_prot, "gone_after": gone_after, "exc": repr(run.exc) if run.exc else None,
-            "post_exc": post_exc, "ntrace": len(run.trace)}
+            "post_exc": post_exc, "ntrace": len(run.trace),
+            "nonempty": any(c.kind == "rmdir" and not c.ok and c.errno == errno.ENOTEMPTY for c in run.trace)}
 
 
 # --------------------------------------------------------------------------- (B) the statement, directly
@@ -580,10 +607,17 @@ def nontrivial_key(case, r):
     """non-trivial: old and new share entries, or a listed directory is non-empty at its rmdir,
     or a listed name goes through a symlinked directory"""
     shared = case["new"] is not None and set(case["old"]) & set(case["new"])
-    nonempty = any(ev.startswith("r") and ev.endswith("!") for ev in r["result"].split("@")[0].split(";"))
+    nonempty = r["nonempty"]
     offp = tuple(x for x in case["off"].split("/") if x)
     alias = any(f["kind"] is not None and f["canon"] != offp + tuple(f["loc"].split("/")) for f in r["old"])
     return bool(shared or nonempty or alias)
+
+
+def scratch_base():
+    """a fresh scratch directory outside /repo and /verif; tmpfs when there is one (the shared
+    disk under /tmp is slow when many checks run)"""
+    d = "/dev/shm" if os.path.isdir("/dev/shm") and os.access("/dev/shm", os.W_OK) else None
+    return tempfile.mkdtemp(prefix="verif_c20_", dir=d)
 
 
 def load_corpus():
@@ -610,7 +644,7 @@ def evaluate(chk, rows, name="unmerge"):
     cases = [(bstr(r["input"]) + "%bs", Raw("(VS (s2l " + bstr(r["result"]) + "%bs))")) for _, r in rows]
     return chk.coq_eval(name, IMPORTS, "bstr", cases,
                         ["mismatches run_case cases",
-                         "where_ (fun i r => negb (spec_ok (dec_case i) r)) cases"], shard=60)
+                         "where_ (fun i r => negb (spec_ok (dec_case i) r)) cases"], shard=64)
 
 
 def main(chk: Check):
@@ -631,11 +665,12 @@ def main(chk: Check):
     chk.lint(["C20"])
     chk.check_fingerprint(ANCHORS)
 
-    base = tempfile.mkdtemp(prefix="verif_c20_")
+    base = scratch_base()
     rows, skipped, hist = [], 0, {}
     try:
         todo = load_corpus()
-        n = chk.n(170, 1500)
+        # quick 120, thorough 480; a changed fingerprint doubles the quick budget
+        n = 480 if chk.thorough else (240 if chk.fingerprint_changed else 120)
         k = 0
         while len(todo) < n + len(load_corpus()):
             todo.append(gen_case(chk.rng, 0))
@@ -703,11 +738,11 @@ def main(chk: Check):
 
 
 def replay(chk: Check, data):
-    case = data.get("input") or data
-    case = dict(case)
+    d = data.get("detail", data)
+    case = dict(d.get("input", d))
     case["tree"] = {k: tuple(v) for k, v in case["tree"].items()}
     case["n"] = 0
-    base = tempfile.mkdtemp(prefix="verif_c20_")
+    base = scratch_base()
     try:
         r = run_case(case, base)
     finally:
